@@ -175,6 +175,8 @@ type nHist struct {
 	// tickPause: real time that passes before every retry tick (not part of the line: wall-clock time is a
 	// parameter of the model; the bundles of such a history outlive it by a wide margin)
 	tickPause time.Duration
+	// realTimeLimit: a history with tickPause is only emitted when it took no longer than this
+	realTimeLimit time.Duration
 }
 
 func (h *nHist) bundle(tag int) *nBundle {
@@ -670,6 +672,12 @@ func nRunHist(h *nHist, dir string) (line string) {
 			break
 		}
 		evs = append(evs, e.str(h.cfg.now)+"~"+o)
+	}
+	if h.tickPause > 0 && time.Since(start) > h.realTimeLimit {
+		// a history in real time whose bundles are only alive for a while: when the machine was too slow for it,
+		// a bundle may have expired legitimately - the history is not comparable with the model (whose clock stands
+		// still) and is not emitted
+		return "# " + h.op + " real-time history abandoned: too slow"
 	}
 	return h.header() + " ev=" + strings.Join(evs, "/")
 }
